@@ -218,6 +218,38 @@ def behave(ct):
     return out
 
 
+def state_refcounts_balanced(ct):
+    """__setstate__ takes one reference to each object slot of the state and releases it when the restored
+    trait dies: the reference counts of the state's objects are the same before and after."""
+    import gc
+    st = ct.__getstate__()
+    objs = [x for x in st if not isinstance(x, (int, str, type(None))) and sys.getrefcount(x) < 2 ** 31]  # mortal
+    gc.collect()
+    before = [sys.getrefcount(x) for x in objs]
+    c = CTrait(0)
+    c.__setstate__(st)
+    mid = [sys.getrefcount(x) for x in objs]
+    c = None
+    gc.collect()
+    after = [sys.getrefcount(x) for x in objs]
+    held = all(m >= b + 1 for b, m in zip(before, mid))
+    return before == after and held
+
+
+def restate_refcounts_balanced(ct):
+    """__setstate__ on a trait that already holds its slots: before and after the trait holds exactly one
+    reference to each object of its state, so their reference counts must not change."""
+    import gc
+    st = ct.__getstate__()
+    objs = [x for x in st if not isinstance(x, (int, str, type(None))) and sys.getrefcount(x) < 2 ** 31]
+    gc.collect()
+    before = [sys.getrefcount(x) for x in objs]
+    ct.__setstate__(st)
+    gc.collect()
+    after = [sys.getrefcount(x) for x in objs]
+    return before == after
+
+
 def copy_of(ct, mode):
     if mode == "state":
         c = CTrait(0)
@@ -253,6 +285,12 @@ def main():
             ct = make(spec)
             st = ct.__getstate__()
             idx = [st[p] for p in pos]
+            if mode == "restate":
+                ok = restate_refcounts_balanced(ct)
+                st2 = ct.__getstate__()
+                out.append(dict(spec=spec, mode=mode, idx=idx, idx2=[st2[p] for p in pos], same=True, diff="",
+                                rc_ok=bool(ok)))
+                continue
             try:
                 c2 = copy_of(ct, mode)
             except (pickle.PicklingError, TypeError, AttributeError) as e:
@@ -262,11 +300,12 @@ def main():
             st2 = c2.__getstate__()
             idx2 = [st2[p] for p in pos]
             b1, b2 = behave(ct), behave(c2)
+            rc_ok = state_refcounts_balanced(make(spec)) if mode == "state" else True
             diff = ""
             if b1 != b2:
                 k = next((i for i, (x, y) in enumerate(zip(b1, b2)) if x != y), -1)
                 diff = "probe %d: %s vs %s" % (k, b1[k] if k >= 0 else len(b1), b2[k] if k >= 0 else len(b2))
-            out.append(dict(spec=spec, mode=mode, idx=idx, idx2=idx2, same=(b1 == b2), diff=diff))
+            out.append(dict(spec=spec, mode=mode, idx=idx, idx2=idx2, same=(b1 == b2), diff=diff, rc_ok=bool(rc_ok)))
     prog.seek(0)
     prog.write("done                         \n")
     prog.close()
